@@ -240,14 +240,20 @@ func (p *Path) Effects() []Step {
 type sxState struct {
 	env   map[types.Object]Term
 	steps []Step
-	epoch int
+	epoch int // advances at every step that may write memory or change the result of a call
+	heap  int // the epoch of the last step that may have written memory the package's values live in (loads are stamped with it)
 	stack []*types.Func
 	why   string
 	tsub  map[*types.TypeParam]types.Type // instantiation of type parameters of inlined generic helpers
 }
 
+func (s *sxState) bump() {
+	s.epoch++
+	s.heap = s.epoch
+}
+
 func (s *sxState) clone() *sxState {
-	n := &sxState{env: make(map[types.Object]Term, len(s.env)), epoch: s.epoch, why: s.why, tsub: s.tsub}
+	n := &sxState{env: make(map[types.Object]Term, len(s.env)), epoch: s.epoch, heap: s.heap, why: s.why, tsub: s.tsub}
 	for k, v := range s.env {
 		n.env[k] = v
 	}
@@ -394,7 +400,7 @@ func (x *SX) assign(lhs ast.Expr, val Term, st *sxState, node ast.Node) {
 		o := x.c.obj(id)
 		if o != nil && isLocalVar(o) {
 			if x.addrTaken[o] {
-				st.epoch++
+				st.bump()
 				st.steps = append(st.steps, Step{Kind: "store", LHS: TVar{o}, RHS: val, Node: node})
 				st.env[o] = val // best knowledge; reads go through readVar
 				return
@@ -403,13 +409,13 @@ func (x *SX) assign(lhs ast.Expr, val Term, st *sxState, node ast.Node) {
 			return
 		}
 		if o != nil {
-			st.epoch++
+			st.bump()
 			st.steps = append(st.steps, Step{Kind: "store", LHS: TVar{o}, RHS: val, Node: node})
 			return
 		}
 	}
 	dst := x.lvalue(lhs, st)
-	st.epoch++
+	st.bump()
 	st.steps = append(st.steps, Step{Kind: "store", LHS: dst, RHS: val, Node: node})
 }
 
@@ -509,7 +515,7 @@ func (x *SX) stmt(s ast.Stmt, st *sxState) []outcome {
 				step.Lit = fl
 			}
 		}
-		st.epoch++
+		st.bump()
 		st.steps = append(st.steps, step)
 		return []outcome{{st: st}}
 	case *ast.DeferStmt:
@@ -1092,13 +1098,19 @@ func (x *SX) forOnce(v *ast.ForStmt, oc outcome, id int, bump int) ([]outcome, *
 		x.havoc(v.Post, head, id, inside)
 	}
 	rec.HeadEnv = copyEnv(head.env)
-	iter := &sxState{env: copyEnv(head.env), epoch: head.epoch + bump, stack: head.stack, tsub: head.tsub}
+	iter := &sxState{env: copyEnv(head.env), epoch: head.epoch + bump, heap: head.heap, stack: head.stack, tsub: head.tsub}
+	if bump > 0 {
+		iter.heap = iter.epoch
+	}
 	if v.Cond != nil {
 		rec.CondT = simplify(x.eval(v.Cond, iter))
 	}
 	rec.Iter = x.finish(x.block(v.Body.List, iter))
 	after := head
 	after.epoch += 1000 * bump // whatever the loop did, later loads are distinct from earlier ones
+	if bump > 0 {
+		after.heap = after.epoch
+	}
 	after.steps = append(after.steps, Step{Kind: "loop", Loop: rec, Node: v})
 	// returns / panics from inside the loop leave the function: surface them as separate outcomes
 	for _, p := range rec.Iter {
@@ -1155,7 +1167,10 @@ func (x *SX) rangeOnce(v *ast.RangeStmt, ev evalOut, id int, bump int) ([]outcom
 		rec.Value = x.c.obj(id)
 	}
 	rec.HeadEnv = copyEnv(head.env)
-	iter := &sxState{env: copyEnv(head.env), epoch: head.epoch + bump, stack: head.stack, tsub: head.tsub}
+	iter := &sxState{env: copyEnv(head.env), epoch: head.epoch + bump, heap: head.heap, stack: head.stack, tsub: head.tsub}
+	if bump > 0 {
+		iter.heap = iter.epoch
+	}
 	if rec.Key != nil {
 		iter.env[rec.Key] = TVar{rec.Key}
 	}
@@ -1165,6 +1180,9 @@ func (x *SX) rangeOnce(v *ast.RangeStmt, ev evalOut, id int, bump int) ([]outcom
 	rec.Iter = x.finish(x.block(v.Body.List, iter))
 	after := head
 	after.epoch += 1000 * bump
+	if bump > 0 {
+		after.heap = after.epoch
+	}
 	after.steps = append(after.steps, Step{Kind: "loop", Loop: rec, Node: v})
 	for _, p := range rec.Iter {
 		if p.End == "return" || p.End == "panic" {
@@ -1224,7 +1242,7 @@ func (x *SX) evalFork(e ast.Expr, st *sxState) []evalOut {
 			}
 		}
 		if x.addrTaken[o] {
-			return one(TDeref{X: TAddr{TVar{o}}, Epoch: st.epoch})
+			return one(TDeref{X: TAddr{TVar{o}}, Epoch: st.heap})
 		}
 		return one(TVar{o})
 	case *ast.BasicLit:
@@ -1268,7 +1286,7 @@ func (x *SX) evalFork(e ast.Expr, st *sxState) []evalOut {
 		if sel := c.Info.Selections[v]; sel != nil {
 			switch sel.Kind() {
 			case types.FieldVal:
-				return x.map1(v.X, st, func(t Term, st *sxState) Term { return TSel{X: t, Field: sel.Obj().(*types.Var), Epoch: st.epoch} })
+				return x.map1(v.X, st, func(t Term, st *sxState) Term { return TSel{X: t, Field: sel.Obj().(*types.Var), Epoch: st.heap} })
 			case types.MethodVal:
 				return x.map1(v.X, st, func(t Term, st *sxState) Term {
 					return TCall{Fun: sel.Obj().(*types.Func), Name: "methodvalue", Recv: t, Epoch: -1}
@@ -1287,7 +1305,7 @@ func (x *SX) evalFork(e ast.Expr, st *sxState) []evalOut {
 					}
 				}
 			}
-			return TDeref{X: t, Epoch: st.epoch}
+			return TDeref{X: t, Epoch: st.heap}
 		})
 	case *ast.UnaryExpr:
 		if v.Op == token.AND {
@@ -1332,7 +1350,7 @@ func (x *SX) evalFork(e ast.Expr, st *sxState) []evalOut {
 		if _, isSig := c.typeOf(v.X).(*types.Signature); isSig {
 			return x.evalFork(v.X, st) // generic instantiation
 		}
-		return x.map2(v.X, v.Index, st, func(a, b Term, st *sxState) Term { return TIndex{X: a, I: b, Epoch: st.epoch} })
+		return x.map2(v.X, v.Index, st, func(a, b Term, st *sxState) Term { return TIndex{X: a, I: b, Epoch: st.heap} })
 	case *ast.SliceExpr:
 		var res []evalOut
 		for _, b := range x.evalFork(v.X, st) {
@@ -1340,7 +1358,7 @@ func (x *SX) evalFork(e ast.Expr, st *sxState) []evalOut {
 				res = append(res, b)
 				continue
 			}
-			t := TSlice{X: b.val, Epoch: b.st.epoch}
+			t := TSlice{X: b.val, Epoch: b.st.heap}
 			if v.Low != nil {
 				t.Lo = x.eval(v.Low, b.st)
 			}
@@ -1518,7 +1536,7 @@ func (x *SX) call(call *ast.CallExpr, st *sxState, nres int) []evalOut {
 					x.fresh++
 					t.Epoch = -x.fresh // every allocation is distinct
 				case "delete", "copy", "clear", "close", "print", "println":
-					ev.st.epoch++
+					ev.st.bump()
 					tt := t
 					ev.st.steps = append(ev.st.steps, Step{Kind: "call", Blt: &tt, Node: call})
 				case "append":
@@ -1595,7 +1613,11 @@ func (x *SX) call(call *ast.CallExpr, st *sxState, nres int) []evalOut {
 				}
 			}
 			if hasFuncArg || !x.pureCall(fun) || (x.ForceStep != nil && fun != nil && x.ForceStep(fun)) {
-				ao.st.epoch++
+				if x.confinedCall(call, fun, hasFuncArg) {
+					ao.st.epoch++ // may change what later calls on the same std object return, but writes no memory loads can see
+				} else {
+					ao.st.bump()
+				}
 				tt := t
 				stp := Step{Kind: "call", Call: &tt, Node: call}
 				if hasFuncArg {
@@ -1620,6 +1642,46 @@ func (x *SX) call(call *ast.CallExpr, st *sxState, nres int) []evalOut {
 		}
 	}
 	return res
+}
+
+// confinedCall: a call of a standard-library function or method whose receiver and arguments are all of basic type or (pointers to)
+// struct types of the standard library, and that is handed no function value: whatever it writes is inside standard-library objects
+// (a strings.Builder, a bytes.Buffer, a sync.WaitGroup), which no load of a field, element or pointer in this package can observe.
+func (x *SX) confinedCall(call *ast.CallExpr, fun *types.Func, hasFuncArg bool) bool {
+	if fun == nil || hasFuncArg || fun.Pkg() == nil || fun.Pkg() == x.c.Types || strings.Contains(fun.Pkg().Path(), ".") {
+		return false
+	}
+	stdStruct := func(t types.Type) bool {
+		n, ok := t.(*types.Named)
+		if !ok || n.Obj().Pkg() == nil || n.Obj().Pkg() == x.c.Types || strings.Contains(n.Obj().Pkg().Path(), ".") {
+			return false
+		}
+		_, isStruct := n.Underlying().(*types.Struct)
+		return isStruct
+	}
+	okType := func(t types.Type) bool {
+		if t == nil {
+			return false
+		}
+		if p, ok := t.(*types.Pointer); ok {
+			return stdStruct(p.Elem())
+		}
+		if b, ok := t.Underlying().(*types.Basic); ok {
+			return b.Kind() != types.UnsafePointer
+		}
+		return stdStruct(t)
+	}
+	if sel, ok := unparen(call.Fun).(*ast.SelectorExpr); ok {
+		if s := x.c.Info.Selections[sel]; s != nil && !okType(x.c.typeOf(sel.X)) {
+			return false
+		}
+	}
+	for _, a := range call.Args {
+		if !okType(x.c.typeOf(a)) {
+			return false
+		}
+	}
+	return true
 }
 
 // pureCall: calls that are known not to write memory (so they neither advance the epoch nor appear as effect steps).
